@@ -128,6 +128,14 @@ claim("C15", "seqbfs",
       "fixed node pool; parallel edges excluded by construction; operations documented to raise (removing the emit_on stream) are not generated",
       "DESIGN.md §3 C15")
 
+claim("C16", "seqbfs",
+      "explicit-state BFS over (input, which user-function invocation fails) sequences on the real pipelines, reference interpreter with abort semantics as oracle",
+      "Programs over every node type that calls a user function (map, starmap, filter, accumulate x3, unique(key), partition(key), partition_unique(key), sink) in chain, fan-out (both orders), union and join shapes; "
+      "alphabet (entry, value, j) with j = which invocation of this emit raises; the injected exception object itself must reach the caller of emit (blocking emit through the real background loop when a node needs one), "
+      "every later output must equal the reference run in which the failing node kept its state, and the failed element's counter must never reach zero.",
+      "one failure per emit; depth 3 (4 thorough); for a failure carried by an awaitable (partition) sibling branches may or may not see the element - both are accepted, as the statement only constrains the failing node",
+      "DESIGN.md §3 C16")
+
 ALL = ["C%02d" % i for i in range(1, 21)]
 
 
